@@ -200,7 +200,7 @@ pub mod sync {
     pub struct Mutex<T: ?Sized> { locked: AtomicBool, poisoned: AtomicBool, data: UnsafeCell<T> }
     unsafe impl<T: ?Sized + Send> Send for Mutex<T> {}
     unsafe impl<T: ?Sized + Send> Sync for Mutex<T> {}
-    pub struct MutexGuard<'a, T: ?Sized + 'a> { m: &'a Mutex<T> }
+    pub struct MutexGuard<'a, T: ?Sized + 'a> { m: &'a Mutex<T>, pan: bool }
 
     impl<T> Mutex<T> {
         pub fn new(t: T) -> Mutex<T> { Mutex { locked: AtomicBool::new(false), poisoned: AtomicBool::new(false), data: UnsafeCell::new(t) } }
@@ -209,14 +209,14 @@ pub mod sync {
         pub fn lock(&self) -> LockResult<MutexGuard<'_, T>> {
             gate("Mutex::lock", |_| !self.locked.load(Ordering::SeqCst));
             self.locked.store(true, Ordering::SeqCst);
-            let g = MutexGuard { m: self };
+            let g = MutexGuard { m: self, pan: std::thread::panicking() };
             if self.poisoned.load(Ordering::SeqCst) { Err(PoisonError::new(g)) } else { Ok(g) }
         }
         pub fn try_lock(&self) -> TryLockResult<MutexGuard<'_, T>> {
             gate("Mutex::try_lock", |_| true);
             if self.locked.load(Ordering::SeqCst) { return Err(TryLockError::WouldBlock); }
             self.locked.store(true, Ordering::SeqCst);
-            let g = MutexGuard { m: self };
+            let g = MutexGuard { m: self, pan: std::thread::panicking() };
             if self.poisoned.load(Ordering::SeqCst) { Err(TryLockError::Poisoned(PoisonError::new(g))) } else { Ok(g) }
         }
     }
@@ -226,7 +226,7 @@ pub mod sync {
         fn drop(&mut self) {
             // unlocking a Mutex<bool> is a scheduling point (same rule as the model: such mutexes are try_locked elsewhere)
             if std::any::type_name::<T>() == "bool" && !std::thread::panicking() { gate("mutex_unlock", |_| true); }
-            if std::thread::panicking() { self.m.poisoned.store(true, Ordering::SeqCst); }
+            if std::thread::panicking() && !self.pan { self.m.poisoned.store(true, Ordering::SeqCst); }
             self.m.locked.store(false, Ordering::SeqCst);
         }
     }
@@ -245,7 +245,7 @@ pub mod sync {
             gate("Condvar::wait", |_| { self.sleepers.lock().unwrap().iter().any(|&(t, n)| t == me && n) && !m.locked.load(Ordering::SeqCst) });
             self.sleepers.lock().unwrap().retain(|&(t, _)| t != me);
             m.locked.store(true, Ordering::SeqCst);
-            Ok(MutexGuard { m })
+            Ok(MutexGuard { m, pan: std::thread::panicking() })
         }
         pub fn notify_one(&self) {
             gate("Condvar::notify_one", |_| true);
